@@ -297,7 +297,7 @@ func c16r3(c *Ctx) {
 			ob := c.Ob(f, "pool-accepts-set-before:"+sink.Fn.Name(), sink.Pos())
 			// the set variable inside TransactionSet{Transactions: S, Basis: B}
 			var set, basis types.Object
-			if cl, ok := ast.Unparen(sink.Expr.Args[0]).(*ast.CompositeLit); ok {
+			if cl, ok := ast.Unparen(origin(f, sink.Expr.Args[0])).(*ast.CompositeLit); ok {
 				for _, el := range cl.Elts {
 					if kv, ok := el.(*ast.KeyValueExpr); ok {
 						if k, ok := kv.Key.(*ast.Ident); ok {
@@ -382,7 +382,9 @@ func c16r4(c *Ctx) {
 		}
 		return false, "basis variable " + bo.Name() + " and transactions variable " + to.Name() + " are not produced by the same call"
 	}
-	for _, f := range c.P.PkgFuncs("rhp") {
+	// every function of the package with its helpers expanded, so that a (basis, set) pair handed to a helper is
+	// judged by where the caller took it from
+	for _, f := range c.P.Views("rhp", ir.ExpandOpt{Key: "all"}).Roots {
 		for _, fn := range append([]*ir.Func{f}, f.Lits...) {
 			ir.Walk(fn.Body, false, func(x ast.Node) {
 				switch e := x.(type) {
